@@ -33,6 +33,8 @@ class SdpTask:
         rec = {"name": self.name, "cfg": self.cfg, "status": "inconclusive", "paths": 0, "queries": 0, "solver_s": 0.0,
                "notes": [], "stubs": [], "neg_control": None, "reachable": None, "tv": None, "engine": self.engine,
                "programs": 0, "disagreements_checked": 0}
+        from symnp.harness import _ARG_MUTATIONS, task_mutation_verdict
+        del _ARG_MUTATIONS[:]
         try:
             self._run(rec, seed)
         except SymError as e:
@@ -44,6 +46,7 @@ class SdpTask:
             rec["status"] = "error"
             rec["notes"].append(f"harness exception {type(e).__name__}: {e}")
             rec["trace"] = traceback.format_exc()[-2500:]
+        task_mutation_verdict(rec)
         rec["wall_s"] = round(time.time() - t0, 3)
         return rec
 
@@ -158,6 +161,22 @@ class VarMap:
                     im = b.real(f"href_{v.name}_{a}_{c}")
                     m[a, c] = m[a, c] + 1j * im
                     m[c, a] = m[c, a] - 1j * im
+        return m
+
+    def cplx(self, k):
+        """the decision variable `k` as the textbook program declares it: an arbitrary COMPLEX matrix.  If the captured
+        variable is real, the reference gets its own symbols for the imaginary parts (T1 then fails and the numeric replay
+        decides whether restricting the domain changes the optimum)."""
+        from symnp.core import cur
+        from symnp.harness import Builder
+        i = k if isinstance(k, int) else [v.name for v in self.vars].index(k)
+        v, m = self.vars[i], np.asarray(self.mats[i], dtype=object)
+        if v.structure in ("real", "symmetric", "psd_s", "nonneg") and m.ndim == 2:
+            b = Builder(cur())
+            m = m.copy()
+            for a in range(m.shape[0]):
+                for c in range(m.shape[1]):
+                    m[a, c] = m[a, c] + 1j * b.real(f"cref_{v.name}_{a}_{c}")
         return m
 
     def like(self, prefix):
